@@ -1,64 +1,194 @@
 //! C03 — TypeScript type syntax is erased: outcome(D(P)) == outcome(P).
 
-use crate::core::{Ctx, Exec, Plan, Property, Tier};
-use crate::engine::{run_simple, RunOpts};
-use crate::progen::{gen_script, render_plain, ts::decorate, Config, SHOW_PRELUDE};
+use crate::core::{guarded, Ctx, Exec, Plan, Property, Tier};
+use crate::engine::{drive, host_modules_all, new_interp, reset_hooks, run_simple, Outcome, RunOpts};
+use crate::progen::{
+    gen_script, render_plain,
+    ts::{decorate_with, DecoOpts},
+    Config, SHOW_PRELUDE,
+};
 use crate::tape::Tape;
 use serde_json::{json, Value};
+use std::cell::RefCell;
+use std::collections::BTreeMap;
+use std::rc::Rc;
 
 pub struct C03Prop;
 pub static C03: C03Prop = C03Prop;
+
+const MAIN: &str = "/m/main.ts";
+const LIB: &str = "/m/lib";
+
+/// Run a module program; `mods` are the modules the host can supply (resolved path -> source).
+fn run_modules(main: &str, mods: &BTreeMap<String, String>, opts: &RunOpts) -> Outcome {
+    let log = Rc::new(RefCell::new(Vec::new()));
+    let mut out = Outcome::default();
+    reset_hooks();
+    let r = guarded(|| {
+        let mut interp = new_interp(&log);
+        let mut host = host_modules_all(mods.clone());
+        let res = drive(&mut interp, main, opts, &mut host);
+        drop(interp);
+        res
+    });
+    tsrun::verif_hooks::vm_instr_set_limit(0);
+    match r {
+        Ok((end, err_text, steps, trace)) => {
+            out.end = end;
+            out.err_text = err_text;
+            out.steps = steps;
+            out.trace = trace;
+        }
+        Err(p) => {
+            if p.contains("verif: vm work limit") {
+                out.end = "budget".into();
+            } else {
+                out.end = format!("panic:{}", p);
+            }
+        }
+    }
+    out.log = log.borrow().clone();
+    out
+}
+
+/// `body\n__show(X)` -> `body\nconsole.log("final:" + __show(X));` (a module has no completion value to rely on)
+fn module_tail(body: &str) -> String {
+    match body.rfind('\n') {
+        Some(i) => format!("{}\nconsole.log(\"final:\" + {});", &body[..i], &body[i + 1..]),
+        None => format!("console.log(\"final:\" + {});", body),
+    }
+}
 
 impl Property for C03Prop {
     fn id(&self) -> &'static str {
         "C03"
     }
     fn rule(&self) -> String {
-        "P = a progen program (full profile) whose text carries decoration slots at every position where TypeScript allows purely static syntax; D(P) fills a tape-chosen subset of the slots: variable/parameter/return annotations, `as`/`as unknown as`/`satisfies`/`<T>e` assertions, postfix `!`, type parameters on functions and classes, `implements`, field and method modifiers, overload signatures, index signatures and `declare` fields in classes, and interleaved `interface`/`type`/`declare const|let|var|function|class|namespace`/abstract-class/unique-symbol declarations whose types come from a recursive type grammar (arrays, tuples incl. named/optional/rest, unions/intersections, function and constructor types, object types with call/construct/index/method signatures, mapped types with modifiers, conditional types with infer, indexed access, keyof/typeof, template literal types, generics with constraints and defaults, type predicates). Oracle: P and D(P), run in fresh interpreters, give the same completion value, console output and error class. Productions gated by an open finding are not emitted (counted). Non-trivial: >= 3 decorations of >= 2 kinds were inserted and P did not stop with a SyntaxError. Distinct = distinct decorated text.".into()
+        "P = a progen program (full profile) whose text carries decoration slots at every position where TypeScript allows purely static syntax; D(P) fills a tape-chosen subset of the slots: variable/parameter/return/catch annotations, definite assignment assertions, `as`/`as unknown as`/`satisfies`/`<T>e` assertions (parenthesised and bare at the end of initialisers, arguments and return values), postfix `!`, type parameters on functions, methods, arrow functions and classes with matching explicit type arguments on calls, `implements`, member modifiers (public/readonly/static combinations, override, declare), overload signatures of functions, methods and constructors, index signatures, optional and `declare` members, `abstract` classes with abstract members (classes only used as base), local `type`/`interface` declarations in function bodies and blocks, and interleaved top-level `interface`/`type`/`declare const|let|var|function|class|abstract class|namespace|module|global|type|interface`/unique-symbol declarations whose types come from a recursive type grammar (arrays, tuples incl. named/optional/rest, readonly, unions/intersections incl. leading `|`/`&`, function/constructor/abstract-constructor/generic function types, `this` parameters, object types with call/construct/index/method/accessor signatures and keyword/computed member names, mapped types with +/-modifiers and `as`, conditional types with infer (incl. constraints), indexed access, keyof/typeof incl. qualified names and instantiation expressions, template literal types, bigint/negative literal types, qualified names, import types, generics with constraints/defaults/variance/const, type predicates). One case in four is a module program importing a value module: D(P) then adds `import type`, inline `type` specifiers, `export type`/`export interface`/`export declare`, and a type-only module that the host does not have. Oracle: P and D(P), run in fresh interpreters, give the same completion value, console output, error class and (modules) the same sequence of import requests. Productions gated by an open finding are not emitted (counted). Non-trivial: >= 3 decorations of >= 2 kinds were inserted and P did not stop with a SyntaxError. Distinct = distinct decorated text.".into()
     }
     fn assumptions(&self) -> Vec<String> {
-        vec!["the decoration grammar only produces TypeScript whose validity does not depend on the type checker (annotation types are any-compatible supertypes of the generator's static type; wild types appear only in unused declarations); there is no tsc in the sandbox to confirm".into()]
+        vec![
+            "the decoration grammar only produces TypeScript whose syntactic validity does not depend on the type checker (annotation types are any-compatible supertypes of the generator's static type; wild types appear only in unused declarations); there is no tsc in the sandbox to confirm; productions follow the TypeScript handbook and release notes (<= 5.0)".into(),
+            "class fields follow ES2022 define semantics (as tsrun implements them), so D never adds an uninitialised field without `declare`; parameter properties and enums/namespaces with run-time meaning belong to C04 and are not generated".into(),
+        ]
     }
     fn plan(&self, tier: Tier) -> Plan {
-        Plan { shards: 16, cases_per_shard: tier.pick(4000, 80000), tape_len: tier.pick(900, 1800), watchdog_s: tier.pick(900, 7200) }
+        Plan { shards: 16, cases_per_shard: tier.pick(4000, 60000), tape_len: tier.pick(1100, 2400), watchdog_s: tier.pick(900, 7200) }
     }
     fn generate(&self, tape: &mut Tape, ctx: &Ctx) -> Value {
         let max = if ctx.tier == Tier::Quick { 12 } else { 26 };
+        let module = tape.chance(1, 4);
+        let depth = if ctx.tier == Tier::Quick { 1 + tape.below(3) } else { 1 + tape.below(6) };
         let mut cfg = Config::full(max);
         cfg.ts_slots = true;
         let p = gen_script(tape, &crate::findings::Gates::none(), cfg);
-        let d = decorate(&p.marked, tape, &ctx.gates);
+        let d = decorate_with(&p.marked, tape, &ctx.gates, DecoOpts { module, depth });
+        let mut kinds = d.kinds.clone();
+        if !module {
+            return json!({
+                "plain": format!("{}{}", SHOW_PRELUDE, render_plain(&p.marked)),
+                "decorated": format!("{}{}", SHOW_PRELUDE, d.text),
+                "decorations": d.count,
+                "kinds": kinds,
+                "excluded": d.excluded,
+            });
+        }
+        // module program: main imports values from ./lib; D(P) adds type-only traffic
+        let plain_main = format!("import {{ libv, libf }} from \"./lib\";\n{}__t(9000, [libv, libf(2)]);\n{}", SHOW_PRELUDE, module_tail(&render_plain(&p.marked)));
+        let mut n = d.count;
+        let mut bump = |k: &str, n: &mut usize| {
+            *kinds.entry(k.to_string()).or_insert(0) += 1;
+            *n += 1;
+        };
+        let import_line = match tape.below(5) {
+            0 => "import { libv, libf } from \"./lib\";".to_string(),
+            1 => {
+                bump("module:inline-type-specifier", &mut n);
+                "import { libv, type LT, libf } from \"./lib\";".to_string()
+            }
+            2 => {
+                bump("module:inline-type-specifier", &mut n);
+                "import { type LT as Renamed, libv, libf, type LI } from \"./lib\";".to_string()
+            }
+            3 => {
+                bump("module:import-type", &mut n);
+                "import type { TA } from \"./types\";\nimport { libv, libf } from \"./lib\";\nimport type TDef from \"./types\";".to_string()
+            }
+            _ => {
+                bump("module:import-type", &mut n);
+                "import { libv, libf } from \"./lib\";\nimport type * as Types from \"./types\";\nimport type { LT } from \"./lib\";".to_string()
+            }
+        };
+        let deco_main = format!("{}\n{}__t(9000, [libv, libf(2)]);\n{}", import_line, SHOW_PRELUDE, module_tail(&d.text));
+        let plain_lib = "console.log(\"lib\");\nexport const libv = 41;\nexport function libf(x) { return x + 1; }\n".to_string();
+        let deco_lib = match tape.below(4) {
+            0 => "console.log(\"lib\");\nexport const libv = 41;\nexport function libf(x) { return x + 1; }\nexport type LT = number;\nexport interface LI {}\n".to_string(),
+            1 => {
+                bump("module:export-type-declaration", &mut n);
+                "console.log(\"lib\");\nexport type LT = number;\nexport interface LI { a: LT }\nexport const libv: LT = 41;\nexport function libf(x: number): number;\nexport function libf(x: string): string;\nexport function libf(x: any) { return x + 1; }\nexport declare const ghost: number;\nexport declare function ghostf(): void;\n".to_string()
+            }
+            2 => {
+                bump("module:export-type-list", &mut n);
+                "console.log(\"lib\");\ntype LT = number;\ninterface LI {}\nexport type { LT, LI };\nexport type { TA as Again } from \"./types\";\nexport const libv = 41 as LT;\nexport function libf<T extends number>(x: T) { return x + 1; }\n".to_string()
+            }
+            _ => {
+                bump("module:export-type-list", &mut n);
+                "console.log(\"lib\");\nimport type { TA } from \"./types\";\ntype LT = TA;\ninterface LI {}\nconst libv = 41;\nfunction libf(x: number) { return x + 1; }\nexport { libv, type LT, libf, type LI };\nexport type * from \"./types\";\ndeclare global { interface FromLib {} }\n".to_string()
+            }
+        };
         json!({
-            "plain": format!("{}{}", SHOW_PRELUDE, render_plain(&p.marked)),
-            "decorated": format!("{}{}", SHOW_PRELUDE, d.text),
-            "decorations": d.count,
-            "kinds": d.kinds,
+            "module": true,
+            "plain": plain_main,
+            "decorated": deco_main,
+            "plain_lib": plain_lib,
+            "decorated_lib": deco_lib,
+            "decorations": n,
+            "kinds": kinds,
             "excluded": d.excluded,
         })
     }
     fn execute(&self, case: &Value, _ctx: &mut Ctx) -> Exec {
         let plain = case["plain"].as_str().unwrap_or("");
         let deco = case["decorated"].as_str().unwrap_or("");
-        let opts = RunOpts { step_budget: 2_000_000, ..Default::default() };
-        let a = run_simple(plain, &opts);
-        let b = run_simple(deco, &opts);
+        let module = case["module"].as_bool().unwrap_or(false);
+        let (a, b) = if module {
+            let opts = RunOpts { step_budget: 2_000_000, module_path: Some(MAIN.into()), ..Default::default() };
+            let mut ma = BTreeMap::new();
+            ma.insert(LIB.to_string(), case["plain_lib"].as_str().unwrap_or("").to_string());
+            let mut mb = BTreeMap::new();
+            mb.insert(LIB.to_string(), case["decorated_lib"].as_str().unwrap_or("").to_string());
+            // "/m/types.ts" is deliberately absent: a request for it ends the run with `needimports`
+            (run_modules(plain, &ma, &opts), run_modules(deco, &mb, &opts))
+        } else {
+            let opts = RunOpts { step_budget: 2_000_000, ..Default::default() };
+            (run_simple(plain, &opts), run_simple(deco, &opts))
+        };
         let mut counters: Vec<(String, u64)> = vec![];
         if let Some(ex) = case["excluded"].as_object() {
             for (k, v) in ex {
                 counters.push((format!("excluded_by_gate:{}", k), v.as_u64().unwrap_or(0)));
             }
         }
-        let kinds: Vec<String> = case["kinds"].as_object().map(|m| m.keys().cloned().collect()).unwrap_or_default();
+        let all_kinds: Vec<(String, u64)> = case["kinds"].as_object().map(|m| m.iter().map(|(k, v)| (k.clone(), v.as_u64().unwrap_or(0))).collect()).unwrap_or_default();
+        let kinds: Vec<String> = all_kinds.iter().map(|(k, _)| k.clone()).collect();
+        let deco_kinds = kinds.iter().filter(|k| !k.starts_with("ty:")).count();
         if a.end == "budget" || b.end == "budget" {
             return Exec::discard("step budget");
         }
-        if a.visible() != b.visible() {
+        let requests = |o: &Outcome| -> Vec<String> { o.trace.iter().filter(|t| t.starts_with("needimports")).cloned().collect() };
+        if a.visible() != b.visible() || requests(&a) != requests(&b) {
             let sig = if b.end.starts_with("error:SyntaxError") && !a.end.starts_with("error:SyntaxError") {
-                format!("c03:decorated-rejected {}", b.err_text.chars().take(60).collect::<String>())
+                // digits (positions) are not part of the root cause
+                let msg: String = b.err_text.split(" at ").next().unwrap_or("").chars().take(70).collect();
+                format!("c03:decorated-rejected {}", msg)
             } else if b.end.starts_with("panic") {
                 format!("c03:{}", b.end)
+            } else if requests(&a) != requests(&b) {
+                "c03:import-requests-differ".to_string()
+            } else if a.end != b.end {
+                format!("c03:outcome-differs {} vs {}", a.end.split(':').take(2).collect::<Vec<_>>().join(":").chars().take(40).collect::<String>(), b.end.split(':').take(2).collect::<Vec<_>>().join(":").chars().take(40).collect::<String>())
             } else {
-                "c03:outcome-differs".to_string()
+                "c03:output-differs".to_string()
             };
             let mut e = Exec::fail(sig, format!("plain and decorated program differ: plain end={:?} decorated end={:?} err={:?}", a.end.chars().take(120).collect::<String>(), b.end.chars().take(120).collect::<String>(), b.err_text.chars().take(160).collect::<String>()));
             e.observed = json!({"plain": a.to_json(), "decorated": b.to_json()});
@@ -67,11 +197,16 @@ impl Property for C03Prop {
             return e;
         }
         let n = case["decorations"].as_u64().unwrap_or(0);
-        let nontrivial = n >= 3 && kinds.len() >= 2 && !a.end.starts_with("error:SyntaxError");
+        let nontrivial = n >= 3 && deco_kinds >= 2 && !a.end.starts_with("error:SyntaxError");
         let mut e = Exec::pass(nontrivial);
         e.tags = kinds;
+        e.tags.push(if module { "program:module".into() } else { "program:script".into() });
+        e.tags.push(format!("plain-end:{}", a.end.split(':').next().unwrap_or("")));
         e.counters = counters;
         e.counters.push(("decorations_inserted".into(), n));
+        for (k, v) in all_kinds {
+            e.counters.push((format!("n:{}", k), v));
+        }
         e.observed = json!({"end": a.end.chars().take(200).collect::<String>(), "decorations": n});
         e
     }
